@@ -83,6 +83,32 @@ package pac
 //@   invariant forall j int {spec[j]} :: 0 <= j && j < len(spec) ==> spec[j] == splitAt(s, ";", j)
 //@   invariant forall j int {res[j]} :: 0 <= j && j <= rangeindex ==> (entDirect(spec[j]) || entOK(spec[j])) && res[j].Mode == entMode(spec[j]) && (!entDirect(spec[j]) ==> res[j].Host == splitHost(cutAfter(trimSpace(spec[j]), " ")) && res[j].Port == splitPort(cutAfter(trimSpace(spec[j]), " ")))
 
+// ---- the DNS helpers implemented in Go (C14): which address families are asked for ----
+// dnsResolve (and isResolvable / isInNet built on it in the JavaScript prelude)
+// is the IPv4 helper: it asks the resolver for "ip4" only; dnsResolveEx asks for
+// both families ("ip"). lookNet()/nLook(): the network of the last look-up and
+// the number of look-ups. (Assumed of the resolver: success means at least one address.)
+// (value conversions of the JavaScript bridge: no look-ups in them)
+//@ pure pac.asString pac.isNullOrUndefined pac.semicolonDelimitedString
+//@ ghost ivar lookNet() string
+//@ ghost ivar nLook() int
+//@ func type:func(ctx context.Context, network string, host string) ([]net.IP, error) as (ctx context.Context, network string, host string) (ips []net.IP, err error)
+//@ trusted
+//@ modifies *, lookNet(), nLook()
+//@ ensures lookNet() == network && nLook() == old(nLook()) + 1
+//@ ensures err == nil ==> len(ips) >= 1
+//@ func (*ProxyResolver).dnsResolve
+//@ property C14
+//@ requires pr != nil && pr.vm != nil && pr.resolver != nil
+//@ modifies *, lookNet(), nLook()
+//@ ensures nLook() == old(nLook()) || (nLook() == old(nLook()) + 1 && lookNet() == "ip4")
+//@ func (*ProxyResolver).dnsResolveEx
+//@ property C14
+//@ requires pr != nil && pr.vm != nil && pr.resolver != nil
+//@ modifies *, lookNet(), nLook()
+//@ ensures nLook() == old(nLook()) || (nLook() == old(nLook()) + 1 && lookNet() == "ip")
+
+
 // The package initialiser establishes the global invariants of this file.
 //@ func init
 //@ property C05 C14
